@@ -8,6 +8,7 @@ CONSTANTS
   Delays = {0}
   StartBacks = {2}
   MarkerModes = {TRUE, FALSE}
+  HeadModes = {FALSE}
   Windows = {3}
   Modes = {"all"}
   MaxLoss = 1
